@@ -1,0 +1,46 @@
+//go:build verif
+
+// Contracts for package plugins, checked by /verif/govc (comment-only file).
+
+package plugins
+
+// Ghost log of plugin setup calls (appended by the call rule for SetupFunc4/SetupFunc6 values).
+//@ ghost var slog4_n int
+//@ ghost var slog4_fn Array[int]Func
+//@ ghost var slog4_ret Array[int]Func
+//@ ghost var slog6_n int
+//@ ghost var slog6_fn Array[int]Func
+//@ ghost var slog6_ret Array[int]Func
+
+//@ type SetupFunc4
+//@   modifies everything
+//@   ensures[C13,callsite:logged] slog4_n == old(slog4_n) + 1 && slog4_fn == upd(old(slog4_fn), old(slog4_n), self) && slog4_ret == upd(old(slog4_ret), old(slog4_n), ret0)
+//@   ensures slog6_n == old(slog6_n) && slog6_ret == old(slog6_ret) && slog6_fn == old(slog6_fn)
+
+//@ type SetupFunc6
+//@   modifies everything
+//@   ensures[C13,callsite:logged] slog6_n == old(slog6_n) + 1 && slog6_fn == upd(old(slog6_fn), old(slog6_n), self) && slog6_ret == upd(old(slog6_ret), old(slog6_n), ret0)
+//@   ensures slog4_n == old(slog4_n) && slog4_ret == old(slog4_ret) && slog4_fn == old(slog4_fn)
+
+// C13: the handlers instantiated are exactly the results of the setup calls, in call order; one
+// setup call at most per listed plugin, made through the plugin registered under the listed name;
+// an unknown name, a failing setup or a nil handler aborts with an error.
+//@ func LoadPlugins
+//@   requires conf != nil
+//@   requires forall k string: has(RegisteredPlugins, k) ==> RegisteredPlugins[k] != nil
+//@   modifies everything
+// (setup functions cannot reach the configuration object, and do not register plugins)
+//@   preserves *conf, *conf.Server4, *conf.Server6, elems(conf.Server4.Plugins), elems(conf.Server6.Plugins), RegisteredPlugins, mapc(RegisteredPlugins)
+//@   ensures[C13:one-handler-per-setup-call] ret2 == nil ==> (len(ret0) == slog4_n - old(slog4_n) && len(ret1) == slog6_n - old(slog6_n))
+//@   ensures[C13:error-means-no-handlers] ret2 != nil ==> (ret0 == nil && ret1 == nil)
+//@   assert[C13:setup-of-the-listed-plugin] before "plugin.Setup6(pluginConf.Args...)": has(RegisteredPlugins, pluginConf.Name) && plugin == RegisteredPlugins[pluginConf.Name]
+//@   assert[C13:setup-of-the-listed-plugin] before "plugin.Setup4(pluginConf.Args...)": has(RegisteredPlugins, pluginConf$2.Name) && plugin$2 == RegisteredPlugins[pluginConf$2.Name]
+//@   assert[C13:appended-handler-is-the-setup-result] before "append(handlers6, h6)": h6 != nil && h6 == slog6_ret[slog6_n - 1]
+//@   assert[C13:appended-handler-is-the-setup-result] before "append(handlers4, h4)": h4 != nil && h4 == slog4_ret[slog4_n - 1]
+//@   loop 1: invariant conf != nil && conf.Server6 != nil && handlers4 != nil && handlers6 != nil && len(handlers4) == 0 && slog4_n == old(slog4_n)
+//@   loop 1: invariant forall k string: has(RegisteredPlugins, k) ==> RegisteredPlugins[k] != nil
+//@   loop 1: invariant len(handlers6) == slog6_n - old(slog6_n) && len(handlers6) <= rangeindex + 1
+//@   loop 2: invariant conf != nil && conf.Server4 != nil && handlers4 != nil && handlers6 != nil
+//@   loop 2: invariant forall k string: has(RegisteredPlugins, k) ==> RegisteredPlugins[k] != nil
+//@   loop 2: invariant len(handlers4) == slog4_n - old(slog4_n) && len(handlers4) <= rangeindex$2 + 1
+//@   loop 2: invariant len(handlers6) == slog6_n - old(slog6_n)
